@@ -241,6 +241,23 @@ Spend(st, a) ==
   LET qs == WSub(st.sqth, a) IN
   IF qs.ok THEN Res([st EXCEPT !.sqth = qs.bal], "ok", "", <<>>, FALSE, <<>>) ELSE Rej(st, "wallet")
 
+(* the long side: buy_squeeth / sell_squeeth(osqth_amount) swap WETH <-> oSQTH through the oSQTH/WETH pool at the bar's pool price
+   (UniLpMarket.buy / sell: the fee is taken from what is paid in) *)
+PoolFee == QOf(3, 1000)
+PoolPx(st) == Rows[Cur(st)].sq
+LongBuy(st, a) ==
+  IF a = Zero THEN Res(st, "ok", "", <<>>, FALSE, <<>>)
+  ELSE LET pay == QDiv(QMul(a, PoolPx(st)), QSub(One, PoolFee))
+           ws  == WSub(st.weth, pay)
+       IN  IF ~ws.ok THEN Rej(st, "wallet")
+           ELSE Res([st EXCEPT !.weth = ws.bal, !.sqth = QAdd(@, a)], "ok", "", <<>>, FALSE, <<>>)
+LongSell(st, a) ==
+  IF a = Zero THEN Res(st, "ok", "", <<>>, FALSE, <<>>)
+  ELSE LET got == QMul(QMul(a, QSub(One, PoolFee)), PoolPx(st))
+           ws  == WSub(st.sqth, a)
+       IN  IF ~ws.ok THEN Rej(st, "wallet")
+           ELSE Res([st EXCEPT !.sqth = ws.bal, !.weth = QAdd(@, got)], "ok", "", <<>>, FALSE, <<>>)
+
 NextBar(st, sym) ==
   LET p == IF Live THEN Append(st.path, sym) ELSE <<sym>> IN
   Res([st EXCEPT !.path = p, !.te = TwapWit(p, "eth"), !.ts = TwapWit(p, "sq")], "ok", "", <<>>, FALSE, <<>>)
@@ -257,6 +274,8 @@ Step(st, ev) ==
     [] ev.op = "update"  -> Update(st)
     [] ev.op = "liq"     -> LiqOne(st, ev.vk)
     [] ev.op = "spend"   -> Spend(st, ev.a)
+    [] ev.op = "lbuy"    -> LongBuy(st, ev.a)
+    [] ev.op = "lsell"   -> LongSell(st, ev.a)
     [] ev.op = "next"    -> NextBar(st, ev.sym)
     [] ev.op = "bar"     -> LET u == Update(st)                      \* bar end through the Actuator: update, then the next row
                                 n == NextBar(u.st, ev.sym)
